@@ -97,6 +97,24 @@ pub fn run_case(lines: &[String]) -> Vec<(String, String)> {
                 let fams = r.gather();
                 let txt = TextEncoder::new().encode_to_string(&fams);
                 res.push((format!("{} text={}", show_gather(&fams), match &txt { Ok(t) => hex_bytes(t.as_bytes()), Err(_) => "err".to_string() }), format!("reg gathertext fmt={}", fmt_table(&fams)))) } } }
+            // a family built by hand, as a custom collector may do, leaving some fields unset: every read goes through the
+            // data model's defaults (proto2 default-on-read in the protobuf build, `Default` values in the plain build)
+            "raw" => {
+                let opt = |k: &str| -> Option<String> { let v = field(&parts, k).unwrap_or("none"); if v == "none" { None } else { Some(unhex_list(v)[0].clone()) } };
+                let optf = |k: &str| -> Option<f64> { let v = field(&parts, k).unwrap_or("none"); if v == "none" { None } else { Some(f64_parse(v)) } };
+                let mut f = MetricFamily::default();
+                if let Some(n) = opt("name") { f.set_name(n); }
+                if let Some(h) = opt("help") { f.set_help(h); }
+                match field(&parts, "type").unwrap_or("none") { "counter" => f.set_field_type(MetricType::COUNTER), "gauge" => f.set_field_type(MetricType::GAUGE), _ => {} }
+                let mut m = proto::Metric::default();
+                if field(&parts, "label").unwrap_or("no") == "yes" { let mut lp = proto::LabelPair::default(); if let Some(n) = opt("lname") { lp.set_name(n); } if let Some(v) = opt("lval") { lp.set_value(v); } m.set_label(vec![lp].into()); }
+                if let Some(v) = optf("cv") { let mut c = proto::Counter::default(); c.set_value(v); m.set_counter(c); }
+                if let Some(v) = optf("gv") { let mut g = proto::Gauge::default(); g.set_value(v); m.set_gauge(g); }
+                if let Some(t) = field(&parts, "ts").and_then(|t| t.parse::<i64>().ok()) { m.set_timestamp_ms(t); }
+                f.set_metric(vec![m].into());
+                let fams = vec![f];
+                let txt = TextEncoder::new().encode_to_string(&fams);
+                res.push((format!("{} text={}", show_gather(&fams), match &txt { Ok(t) => hex_bytes(t.as_bytes()), Err(_) => "err".to_string() }), format!("{} fmt={}", model_line, fmt_table(&fams)))) }
             _ => res.push(("bad-op".into(), model_line)),
         }
     }
